@@ -33,6 +33,9 @@ def run(ctx, ss):
     for r, f in (("C03.1", c03_1), ("C03.2", c03_2), ("C03.3", c03_3), ("C03.4", c03_4), ("C03.5", c03_5),
                  ("C03.6", c03_6), ("C03.7", c03_7), ("C03.8", c03_8)):
         ctx.guard(r, f, ss)
+    # C03.9: nothing on the way from the observed entry points is memoised on a parser / tree / path / container (shared.py)
+    from .shared import memo_for
+    ctx.guard("C03.9", memo_for, ss, "C03", "C03.9", "a conjugated table")
 
 
 def c03_1(ctx, ss):
